@@ -594,9 +594,15 @@ func (o *ObjectSchema) applySubObjectDefaultValues(
 	}
 	path = append(path[:len(path):len(path)], subObject)
 	data := map[string]any{}
-	if existing, ok := rawData[propertyID].(map[string]any); ok {
+	if existing, isSet := rawData[propertyID]; isSet {
+		existingFields, isMap := existing.(map[string]any)
+		if !isMap {
+			// The declared default value of the property in its single-property shorthand: it is a value of the
+			// sub-object as it stands, not something to fill in.
+			return
+		}
 		// The existing value may be the shared, decoded default of the property: work on a copy.
-		data = maps.Clone(existing)
+		data = maps.Clone(existingFields)
 	}
 	subObjectDefaults := subObject.GetDefaults()
 	for k, v := range subObjectDefaults {
